@@ -172,6 +172,8 @@ def make_command(case: dict[str, Any], d: Path) -> Any:
 
             async def main(self) -> None:
                 markers("main")
+                if rich:
+                    self.config.count = self.config.count + 1  # commands may adjust their working copy (the identifier scan clamps END)
                 await asyncio.sleep(0)
                 act(case, "main")
 
@@ -192,6 +194,8 @@ def make_command(case: dict[str, Any], d: Path) -> Any:
 
             async def main(self) -> None:
                 markers("main")
+                if rich:
+                    self.config.count = self.config.count + 1
                 await self.transport.request(b"\\x3e\\x00", timeout=1)
                 act(case, "main")
 
@@ -215,6 +219,8 @@ def make_command(case: dict[str, Any], d: Path) -> Any:
 
         async def main(self) -> None:
             markers("main")
+            if rich:
+                self.config.count = self.config.count + 1
             await self.ecu.ping()
             act(case, "main")
 
@@ -247,6 +253,7 @@ def run_case(case: dict[str, Any], d: Path) -> dict[str, Any]:
 
         cmd = make_command(case, d)
         res["cmd"] = cmd
+        res["start_config"] = json.loads(cmd.config.model_dump_json())
         import contextlib
         import sqlite3 as _sq
 
@@ -454,6 +461,10 @@ def check(case: dict[str, Any]) -> list[tuple[str, str]]:
                     out.append(("C15/meta-config-not-reproducible", f"{ctx}: {meta['config']} -> {again.model_dump_json()}"))
             except Exception as e:  # noqa: BLE001
                 out.append(("C15/meta-config-not-reproducible", f"{ctx}: CONFIG_TYPE(**config) raised {e!r}"))
+            if res.get("start_config") is not None and meta.get("config") != res["start_config"]:
+                diff = [k for k in res["start_config"] if meta.get("config", {}).get(k) != res["start_config"][k]]
+                out.append(("C15/meta-config-is-not-the-start-configuration", f"{ctx}: META.json differs from the configuration the run was started with in {diff[:4]}: "
+                            f"{[(k, res['start_config'][k], meta.get('config', {}).get(k)) for k in diff[:3]]}"))
             rm_ = obs.get("run_meta")
             if case["db"] == "on" and rm_ and len(rm_) == 1 and rm_[0][2] is not None:
                 try:
